@@ -8,8 +8,8 @@ from libertem_blobfinder.base import masks
 
 PROP = "C02"
 LEAN_MODULE = "BlobfinderModel.Properties.C02"
-GEN_FILES = ["Eval"]
-FRAGMENTS = ["upsampling", "correlation_fft", "log_scale", "kernels", "evaluate", "wrappers_text"]
+GEN_FILES = ["Eval", "Blocks"]
+FRAGMENTS = ["upsampling", "correlation_fft", "log_scale", "kernels", "evaluate", "wrappers_text", "upsample_switch"]
 DRIVER = "drvcorr"
 RULE = ("correspondence: candidate grid of the upsampling (region size, dftshift -> offsets) for factors 2..50 vs the "
         "offsets the real refine_center_upsampling can return for a single-frequency spectrum; oracle: (a) linearly "
